@@ -17,7 +17,12 @@ AS_TRANS; a 4-octet-AS capability present, every one of length 4 and equal to re
 or ≥ 3; identifier not multicast; not (same AS ∧ same identifier) -/
 theorem validate_iff (o : OpenMsg) (localID localAS remoteAS : UInt32) :
     validateOpen o localID localAS remoteAS = none ↔ Spec.AcceptableOpen o ⟨localID, localAS, remoteAS⟩ := by
-  sorry
+  unfold Spec.AcceptableOpen
+  rcases Lemmas.validateOpen_cases o localID localAS remoteAS with ⟨h1, h2⟩ | ⟨n, h1, h2⟩
+  · exact ⟨fun _ => h2, fun _ => h1⟩
+  · constructor
+    · intro h; rw [h] at h1; cases h1
+    · intro h; rw [h] at h2; simp [Spec.faultApplies] at h2
 
 /-- the single NOTIFICATION `validate` returns names a fault that is present in the OPEN, with
 the data the property requires (`00 04` for the version; the 4-octet-AS capability for
@@ -25,7 +30,9 @@ subcode 7) -/
 theorem validate_sound (o : OpenMsg) (localID localAS remoteAS : UInt32) (n : Notif)
     (h : validateOpen o localID localAS remoteAS = some n) :
     Spec.faultApplies n (Spec.openSemFaults o ⟨localID, localAS, remoteAS⟩) = true := by
-  sorry
+  rcases Lemmas.validateOpen_cases o localID localAS remoteAS with ⟨h1, _⟩ | ⟨n', h1, h2⟩
+  · rw [h] at h1; cases h1
+  · rw [h] at h1; cases h1; exact h2
 
 /-- the capabilities handed to the plugin are exactly those carried, in wire order, byte-exact -/
 theorem caps_exact (o : OpenMsg) : openCaps o = Spec.caps o := rfl
